@@ -188,9 +188,15 @@ def run_sequence(eng, ops):
     """one sequence in one session (the op list ends with commit, end); returns the outcomes"""
     eng.diverged = None
     outs = []
+    skipping = False
     for op in ops:
+        # as in the random histories: once the session holds a pending duplicate (conflict timing is free: pony may
+        # report it now or at the next flush) the program goes straight to flush / commit, it does not pile further
+        # operations on top of a session that is bound to fail
+        if skipping and op['op'] not in ('flush', 'commit', 'end') : outs.append('skipped_pending_conflict'); continue
         outs.append(eng.step(op))
         if eng.diverged: break
+        if getattr(eng, 'pending_dups', False): skipping = True
     if eng.session is not None:
         try: eng.step({'op': 'abort'})
         except Exception: pass
